@@ -11,6 +11,13 @@
 //! (edge endpoints are positions in the node part of the stream); fe = the graph built by
 //! `from_elements` from that stream: node weights in index order, edges in index order as
 //! `<weight of source>:<weight of target>:<w>`.
+//!
+//! Heap cases (no graph line): a direct differential test of the `BinaryHeap` mirror against
+//! `std::collections::BinaryHeap<MinScored<K, (usize, usize)>>` (the very type the two iterators use),
+//! `K` = i64 or f64 (NaN, infinities, -0.0 included):
+//!   heap <i64|f64> ops=<p<key>:<id>|o|c;…> => one token per call: push `=<vec>`, pop `<key>:<id>=<vec>`
+//!                                             or `none=<vec>`, clear `c`
+//! `<vec>` = payload ids in the order of the heap's internal vector (`BinaryHeap::iter`), `.`-separated.
 use crate::common::*;
 use crate::graphs::*;
 use crate::rng::Rng;
@@ -22,6 +29,117 @@ use petgraph::visit::{
     Data, EdgeRef, IntoEdgeReferences, IntoEdges, IntoNodeReferences, NodeIndexable,
 };
 use petgraph::{Directed, EdgeType, Undirected};
+use std::collections::BinaryHeap;
+
+#[allow(dead_code)]
+#[path = "/repo/src/scored.rs"]
+mod scored_src;
+use scored_src::MinScored;
+
+trait HKey: Copy + PartialOrd {
+    fn show(self) -> String;
+}
+impl HKey for i64 {
+    fn show(self) -> String {
+        self.to_string()
+    }
+}
+impl HKey for f64 {
+    fn show(self) -> String {
+        if self.is_nan() {
+            "nan".into()
+        } else if self == f64::INFINITY {
+            "inf".into()
+        } else if self == f64::NEG_INFINITY {
+            "-inf".into()
+        } else {
+            // integer-valued by construction; -0.0 prints as 0 (it compares equal to 0.0)
+            (self as i64).to_string()
+        }
+    }
+}
+
+fn heap_vec<K: HKey>(h: &BinaryHeap<MinScored<K, (usize, usize)>>) -> String {
+    let ids: Vec<String> = h.iter().map(|m| (m.1).0.to_string()).collect();
+    if ids.is_empty() { "-".into() } else { ids.join(".") }
+}
+
+/// one random push/pop/clear script on the heap type of the MST iterators; keys are drawn from a
+/// small pool (1..4 distinct values, so most keys are equal to some other key)
+fn heap_script<K: HKey>(ctx: &mut Ctx, rng: &mut Rng, kt: &str, base: &[K]) -> (usize, usize) {
+    let pool: Vec<K> = if rng.chance(15) { base.to_vec() } else { (0..1 + rng.below(4)).map(|_| *rng.pick(base)).collect() };
+    let long: i64 = if ctx.tier_thorough { 160 } else { 90 };
+    let len = (if rng.chance(20) { rng.range(40, long) } else { rng.range(3, 30) }) as usize;
+    let p_push = *rng.pick(&[85u32, 65, 55, 45]);
+    let p_clear = if rng.chance(30) { 3 } else { 0 };
+    // the script does not depend on the heap's answers
+    let mut script: Vec<Option<K>> = Vec::new(); // Some(k) = push, None = pop
+    let mut clears: Vec<bool> = Vec::new();
+    for _ in 0..len {
+        if rng.chance(p_push) {
+            script.push(Some(*rng.pick(&pool)));
+            clears.push(false);
+        } else {
+            script.push(None);
+            clears.push(rng.chance(p_clear));
+        }
+    }
+    // drain (and one pop on the empty heap) at the end
+    let pushes = script.iter().filter(|x| x.is_some()).count();
+    let drain = if rng.chance(80) { pushes + 1 } else { rng.below(pushes + 1) };
+    for _ in 0..drain {
+        script.push(None);
+        clears.push(false);
+    }
+    let mut ops: Vec<String> = Vec::new();
+    let mut id = 0usize;
+    for (x, &c) in script.iter().zip(clears.iter()) {
+        match x {
+            Some(k) => {
+                ops.push(format!("p{}:{}", k.show(), id));
+                id += 1;
+            }
+            None => ops.push(if c { "c".into() } else { "o".into() }),
+        }
+    }
+    let cap = if rng.chance(50) { Some(rng.below(8)) } else { None };
+    let r = catch(|| {
+        let mut h: BinaryHeap<MinScored<K, (usize, usize)>> = match cap { Some(c) => BinaryHeap::with_capacity(c), None => BinaryHeap::new() };
+        let mut ans: Vec<String> = Vec::new();
+        let mut id = 0usize;
+        for (x, &c) in script.iter().zip(clears.iter()) {
+            match x {
+                Some(k) => {
+                    h.push(MinScored(*k, (id, 0)));
+                    id += 1;
+                    ans.push(format!("={}", heap_vec(&h)));
+                }
+                None if c => {
+                    h.clear();
+                    ans.push("c".into());
+                }
+                None => match h.pop() {
+                    Some(MinScored(k, (i, _))) => ans.push(format!("{}:{}={}", k.show(), i, heap_vec(&h))),
+                    None => ans.push(format!("none={}", heap_vec(&h))),
+                },
+            }
+        }
+        ans.join(";")
+    });
+    ctx.line(&format!("heap {} ops={}", kt, ops.join(";")), &r.unwrap_or("panic".into()));
+    (pushes, pool.len())
+}
+
+fn heap_case(ctx: &mut Ctx, rng: &mut Rng, case: u64) {
+    ctx.raw(&format!("case {} heap", case));
+    if rng.chance(50) {
+        let base = [-2i64, -1, 0, 0, 1, 1, 2, 3, 7, 100, i64::MIN, i64::MAX];
+        heap_script::<i64>(ctx, rng, "i64", &base);
+    } else {
+        let base = [f64::NAN, f64::NAN, f64::NEG_INFINITY, -2.0, -1.0, -0.0, 0.0, 1.0, 1.0, 2.0, 3.0, 1.0e9, f64::INFINITY];
+        heap_script::<f64>(ctx, rng, "f64", &base);
+    }
+}
 
 trait Wt: Copy + PartialOrd {
     fn to_i(self) -> i64;
@@ -259,6 +377,11 @@ fn reweigh(rng: &mut Rng, ag: &mut AG) -> &'static str {
 
 pub fn run(ctx: &mut Ctx, case: u64) {
     let mut rng = Rng::for_case(ctx.seed, "C12", case);
+    // every 8th case is a script on the heap type itself
+    if case % 8 == 7 {
+        heap_case(ctx, &mut rng, case);
+        return;
+    }
     let directed = rng.chance(35);
     let big = if ctx.tier_thorough { 10 } else { 8 };
     // small graphs (brute-force minimality applies) and larger ones (certificate only); trivial graphs
